@@ -391,6 +391,14 @@ def stage_lll(ctx, side):
         ctx.case("lll:%s:%d:%d" % (tag, l, i))
         replay = dict(op=lines[i], level=l, how="echo '<op>' | drv_lll_<level>  (tools/harness/drv_lll.c)", c_output=o[:2000],
                       precision_slack_bits=slack)
+        if det_int(lat) == 0:
+            # a generator of this stage happened to produce a singular matrix (tiny entries): the property demands -1
+            hist(ctx, "lll_stage_singular_inputs", w[0])
+            if w[0] != "-1":
+                ctx.violation("lll:rank-deficient:" + ("ret0" if w[0] == "0" else w[0]),
+                              "quat_lattice_lll: %s on a rank-deficient input (class %s)" % (o[:40], tag), replay)
+                nviol += 1
+            continue
         if w[0] in ("crash", "timeout") or w[0].startswith("<no"):
             ctx.violation("lll:" + w[0], "quat_lattice_lll %s on a full-rank lattice (class %s)" % (o[:40], tag), replay)
             nviol += 1
